@@ -24,6 +24,7 @@ RULE = ("generated primitives / boundaries (exact partitions) and compositions (
         "sampler) x sampling mode (one big call by n, many small calls n in {1,2,10}, by density) x parameter rows (k <= 3, "
         "tested row-wise), Gaussian, LHS and grid samplers; non-trivial = a statistical or structural test was evaluated on "
         ">= 2000 recorded points (LHS/grid: on a returned sample); distinct = (family, expression shape, target, mode, k class)")
+RULE += '; products whose second factor has two variables while the first depends on one of them; a sixth of the prim / comp cases at other length scales; every violation carries the effect size w = sqrt((chi2 - dof) / N)'
 REQUIRED_REACH = ["Circle.sample_random_uniform", "Sphere.sample_random_uniform", "Triangle._handle_sum_greater_1",
                   "ParallelogramBoundary.sample_random_uniform", "TriangleBoundary.sample_random_uniform",
                   "_random_points_inside", "_random_points_if_n_eq_1", "UnionDomain._sample_random_with_n",
